@@ -54,7 +54,7 @@ def sim_scens(ctx, cfg, n, depth=41, kinds_cycle=True):
     return out
 
 
-GOALS = ["NotG1", "NotG2", "NotG3", "NotG4", "NotG5", "NotG6", "NotG7", "NotG8", "NotG9", "NotG10"]
+GOALS = ["NotG1", "NotG2", "NotG3", "NotG4", "NotG5", "NotG6", "NotG7", "NotG8", "NotG9", "NotG10", "NotG11", "NotG12"]
 
 
 def witness_scens(ctx, producers=("simple", "erroring"), repeat=6):
@@ -81,9 +81,27 @@ def run_driver(ctx, scens, tag="t", udp=False):
     sp = ctx.path("scen_%s.json" % tag)
     json.dump(scens, open(sp, "w"))
     tp = ctx.path("trace_%s.ndjson" % tag)
-    rc, out = vlib.go_test(ctx, "", HARNESS, "TestVerifLifecycle$", env={"VERIF_SCEN": sp, "VERIF_OUT": tp}, timeout=2400)
-    if rc != 0:
-        raise vlib.MachineryError("lifecycle driver failed:\n" + out[-4000:])
+    events, skip = [], 0
+    for attempt in range(8):
+        tpi = ctx.path("trace_%s_part%d.ndjson" % (tag, attempt))
+        rc, out = vlib.go_test(ctx, "", HARNESS, "TestVerifLifecycle$", env={"VERIF_SCEN": sp, "VERIF_OUT": tpi, "VERIF_SKIP": skip}, timeout=2400)
+        part = vlib.read_ndjson(tpi) if os.path.exists(tpi) else []
+        events.extend(part)
+        if rc == 0:
+            break
+        begins = [e["scen"] for e in part if e["ev"] == "Begin"]
+        if "panic:" not in out or not begins:
+            raise vlib.MachineryError("lifecycle driver failed:\n" + out[-4000:])
+        # the code under test panicked in one of its own goroutines: the process is gone. The scenario that was running is the culprit.
+        msg = [l for l in out.splitlines() if l.startswith("panic:")]
+        if events and events[-1]["ev"] != "End":
+            events.append({"ev": "Crash", "msg": msg[0] if msg else "?"})
+            events.append({"ev": "End", "hangs": [], "finalstop": True, "finalstoperr": "", "st": "Inactive", "flag": False, "probe": "skipped",
+                           "census": {"core": 0, "producer": 0}, "returns": {}, "ndone": 0, "crashed": True})
+        skip = begins[-1]
+    else:
+        raise vlib.MachineryError("lifecycle driver keeps crashing:\n" + out[-2000:])
+    vlib.write_ndjson(tp, events)
     if udp:
         # the real Abaco source over localhost UDP (no gates): failed start without data, start with data, stop, restart
         tu = ctx.path("trace_%s_udp.ndjson" % tag)
@@ -147,6 +165,8 @@ def judge(ctx, events, viols, scens, prefixes, tlc_out):
             sig["where"] = sorted({norm_where(h["where"]) for h in e.get("hangs", [])})
         elif e["ev"] == "Step":
             sig["action"] = e["a"]
+        elif e["ev"] == "Crash":
+            sig["panic"] = (e.get("msg") or "")[:60]
         elif e["ev"] == "UDPStep":
             sig["step"] = e["step"]
             sig["err"] = (e.get("err") or "")[:50]
